@@ -17,7 +17,7 @@ fn invariant(v: &Value) -> bool {
 
 pub fn c01_step() {
     let n = mk_primary();
-    create_db(&n.dbs, "d", "none");
+    mk_db(&n.dbs, "d", "none");
     let admin = vsym::param("admin", 0) == 1;
     let (mut c, mut rx) = db_client(&n.dbs, "d");
     if admin { process_request("auth user pwd", &n.dbs, &mut c); drain(&mut rx); }
